@@ -599,6 +599,59 @@ func runBrokerPairs(r *h.Run, c h.Conf, kind string) {
 			}
 		}
 	}
+	// gRPC broker: an accept nobody dialled whose listener is closed again
+	// (server stopped) INSIDE the pending window, then the pair issued properly
+	// for the same ID: the dial must be told about the new listener, not the
+	// closed one
+	if kind == "grpc" && c.TLS != "auto" && (r.Spec.P("staleinfo", "") != "" || (r.Spec.P("fixed", "") != "1" && w.Range("staleinfo/on", 4) == 0)) {
+		hostAccepts := r.Spec.P("staleinfo", "") == "h" || (r.Spec.P("staleinfo", "") == "" && w.Range("staleinfo/dir", 2) == 0)
+		yid := uint32(3300)
+		yctx := fmt.Sprintf("broker=grpc re-accept-after-undialled-accept accept-side=%s", map[bool]string{true: "host", false: "plugin"}[hostAccepts])
+		i0 := w.InjectedTotal()
+		acc := func() (func(), error) {
+			if hostAccepts {
+				return h.HostAcceptOwn(s.cmd, yid)
+			}
+			_, err := s.cmd.Do("acceptown", fmt.Sprint(yid))
+			return func() { s.cmd.Do("stopown", fmt.Sprint(yid)) }, err
+		}
+		stop, err := acc()
+		if err != nil {
+			r.Violate("lost-pair", yctx+" step=lonely-accept", err.Error())
+		} else {
+			time.Sleep(time.Duration(200+w.Range("staleinfo/hold", 4)*900) * time.Millisecond)
+			r.Do("StopLonely", 30*time.Second, func() (any, error) { stop(); return nil, nil })
+			time.Sleep(time.Duration(w.Range("staleinfo/pause", 3)) * 300 * time.Millisecond)
+			// (judged only if nothing was held up for a sizeable part of the 300 ms
+			// between the second accept and the dial: a receive loop that is stalled
+			// that long still holds the out-of-date info when the dial looks)
+			i0 = w.InjectedTotal() - 800*time.Millisecond
+			stop2, err := acc()
+			if err != nil {
+				r.Violate("lost-pair", yctx+" step=accept", err.Error())
+			} else {
+				time.Sleep(300 * time.Millisecond)
+				o := r.Do(fmt.Sprintf("StaleInfoDial(%d)", yid), 60*time.Second, func() (any, error) {
+					if hostAccepts {
+						return s.cmd.Do("dial", fmt.Sprint(yid))
+					}
+					return h.HostDialPing(s.cmd, yid)
+				})
+				w.Probe("grpc.re-accept-after-undialled-accept")
+				switch {
+				case o.Hung:
+					r.Violate("hang", "op=Dial "+yctx, "dial never returned")
+				case o.Err != nil:
+					if w.InjectedTotal()-i0 < time.Second {
+						r.Violate("lost-pair", yctx+" step=dial", fmt.Sprintf("accept and dial were issued 300 ms apart; the dial failed: %v", o.Err))
+					}
+				case o.Val.(string) != fmt.Sprintf("id=%d", yid):
+					r.Violate("misroute", yctx, fmt.Sprintf("id %d answered by %q", yid, o.Val))
+				}
+				r.Do("StopSecond", 30*time.Second, func() (any, error) { stop2(); return nil, nil })
+			}
+		}
+	}
 	// an ID used a second time after its listener was closed, the second
 	// accept/dial pair issued a few seconds after the first (around the
 	// broker's own 5 s timers), in either order
@@ -794,6 +847,9 @@ func init() {
 						}
 					}
 				}
+			}
+			for _, si := range []string{"h", "p"} {
+				out = append(out, sp("C07", "fixed-staleinfo/"+si, seed, P("tls", "none", "launch", "cmd", "fixed", "1", "dir", "h", "ord", "a", "gap", "0", "staleinfo", si)))
 			}
 			for _, rt := range []string{"hd", "pd", "ha", "pa"} {
 				out = append(out, sp("C07", "fixed-retry/"+rt, seed, P("tls", "none", "launch", "cmd", "fixed", "1", "dir", "h", "ord", "a", "gap", "0", "retry", rt)))
